@@ -35,6 +35,9 @@ Inductive vexpr :=
 | VV (o : operand) | VS (s : sc)
 | VAdd (p q : vexpr) | VSub (p q : vexpr) | VMul (p q : vexpr) | VDiv (p q : vexpr).
 
+(* body of the direct regime:  out.data[:] = <vexpr>, possibly under if/elif/else on the scalars *)
+Inductive dstmt := DAssign (e : vexpr) | DIf (c : cond) (t f : dstmt).
+
 (* bodies of the nested fallback_* functions: augmented assignments on the
    function's array parameters (P1 = first array parameter, P2 = second) with
    either an array parameter or the scalar parameter on the right *)
